@@ -72,7 +72,7 @@ pub fn search_pair(sess: &mut dyn Driver, p: &Pos, d: u32, rep: &mut Report) {
     for q in [p, &f] {
         match search(sess, Some((&Some(q.to_fen()), &[])), &GoSpec::depth(d as u64)) {
             Ok(o) => scores.push(o.score_at_depth(d).and_then(reported)),
-            Err(e) if e == "watchdog" => { rep.inconclusive("watchdog fired"); return; }
+            Err(e) if e.starts_with("watchdog") => { rep.inconclusive("watchdog fired"); return; }
             Err(e) => { rep.violation("search-failed", format!("go depth {} on {}: {}", d, q.to_fen(), e), replay); return; }
         }
     }
@@ -96,7 +96,7 @@ pub fn mate_order(sess: &mut dyn Driver, p: &Pos, rep: &mut Report) {
     for x in [p, &q] {
         match search(sess, Some((&Some(x.to_fen()), &[])), &GoSpec::depth(plies as u64)) {
             Ok(o) => got.push(o.score_at_depth(plies).and_then(reported)),
-            Err(e) if e == "watchdog" => { rep.inconclusive("watchdog fired"); return; }
+            Err(e) if e.starts_with("watchdog") => { rep.inconclusive("watchdog fired"); return; }
             Err(e) => { rep.violation("search-failed", format!("{}: {}", x.to_fen(), e), replay); return; }
         }
     }
